@@ -82,7 +82,7 @@ func genC07(t *rapid.T) HistCase {
 		}},
 	}
 	params := ctlsim.Params{
-		Shards:         rapid.SampledFrom([]int{0, 0, 3}).Draw(t, "shards"),
+		Shards:         rapid.SampledFrom([]int{0, 0, 2, 3}).Draw(t, "shards"),
 		DefaultBackend: rapid.SampledFrom([]string{"", "", "a/s1", "a/s9"}).Draw(t, "defback"),
 	}
 	avoidParams = params
